@@ -208,6 +208,17 @@ def mutators(c):
     add('CSSStyleDeclaration.setProperty', st, lambda t, a: t.setProperty(a[0], a[1], a[2]),
         [((n, v, p), 'mixed') for n, _ in NAMES for v, _ in VALUES[:9] for p, _ in PRIOS[:5]][::3])
     add('CSSStyleDeclaration[]=', st, lambda t, a: t.__setitem__(a[0], a[1]), [((n, v), 'mixed') for n, _ in NAMES for v, _ in VALUES])
+
+    def update_existing(t, a):
+        # an entry that is there already is updated in place: value and priority are two steps
+        ps = t.getProperties(all=True)
+        t.setProperty(ps[a[0] % len(ps)].name, a[1], a[2])
+
+    # values that make a fresh Property but whose own serialisation is refused when it is taken over (escaped delimiters), and ordinary ones, each
+    # with a priority that differs from the one in place
+    add('CSSStyleDeclaration.setProperty(existing name)', st, update_existing,
+        [((i, v, pr), 'late-takeover') for i in range(3) for v in ('\\2c ', '\\3b ', '\\22 ', '\\7d ', 'url(a\\"b)', '\\29 ', 'a\\,b', '\\28 x', '2px', '1px )', 'f(\\29 )')
+         for pr in ('', 'important', '!important', 'x')])
     add('CSSStyleDeclaration.top=', st, setter('top'), VALUES)
     add('CSSStyleDeclaration.removeProperty', st, lambda t, a: t.removeProperty(a), NAMES)
     add('CSSStyleDeclaration.setProperty(Property)', st, lambda t, a: t.setProperty(css.Property(a[0], a[1])), [((n, v), 'mixed') for n, _ in NAMES[:4] for v, _ in VALUES])
